@@ -181,14 +181,14 @@ def err_span(e):
 def limit_mem():
     """children (harness workers, driver) get an address-space cap: a runaway recursion must not take the sandbox down"""
     import resource
-    cap = 6 * 1024 ** 3
+    cap = 3 * 1024 ** 3
     resource.setrlimit(resource.RLIMIT_AS, (cap, cap))
 
 
 def run_stream(binary, text, timeout):
     try:
         p = subprocess.run([binary], input=text, stdout=subprocess.PIPE, stderr=subprocess.PIPE, text=True,
-                           timeout=timeout, preexec_fn=limit_mem)
+                           timeout=timeout, preexec_fn=None if binary == DRIVER else limit_mem)
         return p.returncode, p.stdout, p.stderr
     except subprocess.TimeoutExpired as e:
         return -9, (e.stdout or b'').decode() if isinstance(e.stdout, bytes) else (e.stdout or ''), 'timeout'
